@@ -781,16 +781,25 @@ impl World {
     }
 }
 
-/// The transport handed to `Session::connect`.
+/// The transport handed to `Session::connect`. It holds the world weakly: a handle that the
+/// workload leaks with `mem::forget` must not keep the whole execution record alive.
 pub struct SimIo {
-    pub world: Shared,
+    pub world: std::rc::Weak<RefCell<World>>,
     pub conn: usize,
+}
+
+impl SimIo {
+    pub fn new(world: &Shared, conn: usize) -> Self {
+        SimIo { world: Rc::downgrade(world), conn }
+    }
 }
 
 impl Drop for SimIo {
     fn drop(&mut self) {
-        if let Ok(mut w) = self.world.try_borrow_mut() {
-            w.end_conn(self.conn);
+        if let Some(w) = self.world.upgrade() {
+            if let Ok(mut w) = w.try_borrow_mut() {
+                w.end_conn(self.conn);
+            }
         }
     }
 }
@@ -801,15 +810,18 @@ impl ErrorType for SimIo {
 
 impl Read for SimIo {
     async fn read(&mut self, buf: &mut [u8]) -> Result<usize, Self::Error> {
-        poll_fn(|_cx| self.world.borrow_mut().do_read(self.conn, buf)).await
+        let Some(w) = self.world.upgrade() else { return Err(SimErr(ErrKind::NotConnected)) };
+        poll_fn(|_cx| w.borrow_mut().do_read(self.conn, buf)).await
     }
 }
 
 impl Write for SimIo {
     async fn write(&mut self, buf: &[u8]) -> Result<usize, Self::Error> {
-        poll_fn(|_cx| self.world.borrow_mut().do_write(self.conn, buf)).await
+        let Some(w) = self.world.upgrade() else { return Err(SimErr(ErrKind::NotConnected)) };
+        poll_fn(|_cx| w.borrow_mut().do_write(self.conn, buf)).await
     }
     async fn flush(&mut self) -> Result<(), Self::Error> {
-        poll_fn(|_cx| self.world.borrow_mut().do_flush(self.conn)).await
+        let Some(w) = self.world.upgrade() else { return Err(SimErr(ErrKind::NotConnected)) };
+        poll_fn(|_cx| w.borrow_mut().do_flush(self.conn)).await
     }
 }
